@@ -10,6 +10,10 @@ Open Scope Z_scope.
 
 Definition zmem (x : Z) (l : list Z) : bool := existsb (Z.eqb x) l.
 
+(* entry of a 3x3 stencil table at offset (dr, dc) in {-1,0,1}^2 *)
+Definition table_at (t : list (list Z)) (dr dc : Z) : Z :=
+  nth (Z.to_nat (dc + 1)) (nth (Z.to_nat (dr + 1)) t []) (-1).
+
 (* generic D8-style decoder (core_d8.from_array / core_ldd.from_array share the loop) *)
 Section Decode.
 Variable drdc : Z -> Z * Z.
@@ -97,7 +101,7 @@ Definition encode_cell (idx0 : nat) : option Z :=
   let dr := Z.of_nat (idx_ds / ncol) - Z.of_nat (idx0 / ncol) in
   let dc := Z.of_nat (idx_ds mod ncol) - Z.of_nat (idx0 mod ncol) in
   if (dr >=? -1) && (dr <=? 1) && (dc >=? -1) && (dc <=? 1)
-  then Some (nth (Z.to_nat (dc + 1)) (nth (Z.to_nat (dr + 1)) table []) mv)
+  then Some (table_at table dr dc)
   else None.
 Fixpoint sequence_opt {A} (l : list (option A)) : option (list A) :=
   match l with
@@ -111,11 +115,11 @@ End Encode.
 Definition d8_to_array := encode d8_ds d8_mv.
 Definition ldd_to_array := encode ldd_ds ldd_mv.
 
-Definition nextxy_to_array (ncol : nat) (ds : list nat) : list Z * list Z :=
+Definition xy_cell (ncol : nat) (ds : list nat) (idx0 : nat) : Z * Z :=
   let sz := length ds in
-  let f (idx0 : nat) : Z * Z :=
-    let idx_ds := nth idx0 ds sz in
-    if (sz <=? idx_ds)%nat then (nextxy_mv, nextxy_mv)
-    else if (idx0 =? idx_ds)%nat then (nth 0 nextxy_pv 0, nth 0 nextxy_pv 0)
-    else (Z.of_nat (idx_ds mod ncol) + 1, Z.of_nat (idx_ds / ncol) + 1) in
-  let l := map f (seq 0 sz) in (map fst l, map snd l).
+  let idx_ds := nth idx0 ds sz in
+  if (sz <=? idx_ds)%nat then (nextxy_mv, nextxy_mv)
+  else if (idx0 =? idx_ds)%nat then (nth 0 nextxy_pv 0, nth 0 nextxy_pv 0)
+  else (Z.of_nat (idx_ds mod ncol) + 1, Z.of_nat (idx_ds / ncol) + 1).
+Definition nextxy_to_array (ncol : nat) (ds : list nat) : list Z * list Z :=
+  let l := map (xy_cell ncol ds) (seq 0 (length ds)) in (map fst l, map snd l).
